@@ -121,7 +121,12 @@ def run(ctx):
                 "(4-bit code lengths, 24-bit counts, no GCD bit), delta orders 0..7 incl. n <= order, zero-count chunks - are "
                 "encoded by the Lean *spec encoder* and decoded by the real library in three modes (simple_decompress, chunk API, "
                 "iterator with a random limit); the numbers must equal the model's `chunkVals`. Plus the 8 shipped assets through "
-                "both decoders. non-trivial = tree with >1 code, run block, divisor >1, legacy flag or delta")
+                "both decoders. Layer N: the literal Lean model of decompress_unsigneds_limited_dirty (incomplete-prefix resume, "
+                "guaranteed_safe_num_blocks fast path with unchecked reads, checked tail; proved equal to the abstract batch decoder "
+                "and panic-free, C03n) is run against the real NumDecompressor through the guarded hook on valid, truncated, "
+                "trailing and random bodies for random tables, every call chained from the state the previous one left (limits "
+                "1..2^24, both insufficient-data modes): numbers, finished flag, incomplete prefix, bit index compared string for "
+                "string. non-trivial = tree with >1 code, run block, divisor >1, legacy flag or delta")
     reqs, info = [], []
     for i in range(3000 if ctx.quick else 30000):
         dt = S.ALL_DT[i % 15]
@@ -173,6 +178,11 @@ def run(ctx):
             ok = got == flat and items and items[-1] == "footer" and all(len(G.parse_hexlist(it[5:])) <= lim for it in items if it.startswith("nums "))
         if not ok:
             ctx.violation("the reader does not decode a format-valid file to the numbers it encodes (%s)" % mode, l, str(vals)[:300], a[:400] + " :: " + req[:300])
+    # layer N: the literal model of NumDecompressor's dirty batch with its unchecked fast path (proved equal to the abstract
+    # batch decoder and panic-free, C03n) against the real one through the guarded hook, chained over several calls
+    from .. import litstream as L
+    good = L.run_bodywrite(ctx, 120 if ctx.quick else 1500)
+    L.run_numdec(ctx, good, 120 if ctx.quick else 2500)
     # assets through both decoders
     al = S.assets()
     ia = C.harness(["dops %s 100000 W%s D" % (dt, hx) for (_, dt, hx, _) in al])
